@@ -173,8 +173,11 @@ def r16_5(ctx: Ctx) -> None:
             continue
         has_dotdot = any(isinstance(x, ast.Constant) and x.value == ".." for x in ast.walk(lp))
         rej = [x for x in walk(lp) if isinstance(x, ast.Return) and isinstance(x.value, ast.Constant) and isinstance(x.value.value, bool)]
-        neg = any(isinstance(x, ast.Compare) and isinstance(x.ops[0], (ast.Lt, ast.LtE)) and isinstance(x.comparators[0], ast.Constant)
-                  and x.comparators[0].value in (0, -1) for x in ast.walk(lp))
+        # a counter of the loop (stepped by +=/-= in it) is compared with 0/-1 - `depth < 0` after the step, or `depth == 0` / `not depth` before it
+        counters = {norm(x.target) for x in ast.walk(lp) if isinstance(x, ast.AugAssign) and isinstance(x.op, (ast.Add, ast.Sub))}
+        neg = any(isinstance(x, ast.Compare) and len(x.ops) == 1 and isinstance(x.ops[0], (ast.Lt, ast.LtE, ast.Eq)) and isinstance(x.comparators[0], ast.Constant)
+                  and x.comparators[0].value in (0, -1) and norm(x.left) in counters for x in ast.walk(lp)) or \
+            any(isinstance(x, ast.UnaryOp) and isinstance(x.op, ast.Not) and norm(x.operand) in counters for x in ast.walk(lp))
         if not (has_dotdot and rej and neg):
             continue
         if g is f:
